@@ -36,6 +36,14 @@ def check_C03(report, tier, seed):
     S.suite_tables(report, ["connect", "puback", "pubrec", "pubrel", "pubcomp", "disconnect", "suback", "unsuback", "auth",
                             "qos", "pfi", "connect311", "suback311"], "C03")
     S.suite_decode(report, tier, seed, "C03")
+    # the decoder inside the engine: hostile bytes on one connection, then well-formed traffic on the next ones
+    import suites_engine as E
+    walks = E.run_walks(seed, tier, "engine-c03", 120, 3000, adversarial=True)
+    corr_ok = E.correspondence(report, walks, "C03")
+    mon_ok = E.monitor(report, walks, "C03")
+    if not corr_ok and mon_ok:
+        more = E.run_walks(seed + 1, tier, "engine-c03-search", 1200, 3000, adversarial=True, replay_model=False)
+        E.monitor(report, more, "C03", label="search")
 
 
 def check_C16(report, tier, seed):
@@ -98,6 +106,7 @@ def check_C11(report, tier, seed):
     # every ordering of a small alphabet of user, network and timer events (incl. data before open, acks for nothing,
     # garbage, reset anywhere): same responses from model and implementation, and never a panic
     S.exhaustive(report, "C11", 3 if tier == "quick" else 4)
+    S.pubrel_race_family(report, "C11")
 def check_C14(report, tier, seed): engine_check("C14", report, tier, seed, snap_after_svc=True)
 def check_C15(report, tier, seed): engine_check("C15", report, tier, seed)
 def check_C18(report, tier, seed): engine_check("C18", report, tier, seed)
